@@ -300,6 +300,8 @@ type ReplayResult struct {
 	Reproduced bool        `json:"reproduced"`
 	Violations []Violation `json:"violations"`
 	Digest     string      `json:"digest"`
+	Scenario   interface{} `json:"scenario,omitempty"`
+	Trace      []string    `json:"trace,omitempty"`
 }
 
 // ---------------------------------------------------------------- worker loop
@@ -409,7 +411,7 @@ func WorkerMain(t *testing.T, engine string, props map[string]RunFunc) {
 			rf.Sched = SchedCfg{Seed: RunSeed(rf.Seed, rf.Property+"/sched", rf.Run)}
 		}
 		o := execute(t, fn, job.Property, job.Tier, rf.Run, tape, rf.Sched, rf.Params, true)
-		res := &ReplayResult{Violations: o.Violations, Digest: Digest(o)}
+		res := &ReplayResult{Violations: o.Violations, Digest: Digest(o), Scenario: o.Scenario, Trace: o.Trace}
 		res.Reproduced = hasClass(o, rf.Class) != nil
 		agg.Replayed = res
 		agg.Runs = 1
